@@ -78,6 +78,25 @@ def hier_designs(tier, seed):
     specs.append((2, False, False, {"leaf": "u1:rr"}))
     specs.append((1, False, False, {"leaf": "u1:r1"}))
     specs.append((2, True, False, {"leaf": "u2:e1"}))
+    # histories: flatness asked of a module (and of its parts) while it is still being built, and flattening twice
+    def probed(depth):
+        from hdl21.flatten import is_flat, flatten as _fl
+        child = build((depth - 1, False, False, {}))
+        top = h.Module(name=f"Probed{depth}")
+        top.p, top.q = h.Port(), h.Port()
+        top.k = h.Signal()
+        top.add(h.R(r=5)(p=top.p, n=top.k), name="r0")
+        assert is_flat(top) and (depth == 1) == is_flat(child)     # true at this moment: only a primitive so far
+        top.add(child(p=top.k, q=top.q), name="u1")
+        is_flat(top)
+        return top
+    for d in (1, 2):
+        yield (f"flat/history/is_flat-asked-while-growing/d{d}", lambda d=d: probed(d))
+
+    def twice():
+        from hdl21.flatten import flatten as _fl
+        return _fl(build((2, False, False, {})))
+    yield ("flat/history/flatten-of-a-flattened-module", twice)
     for s in specs:
         yield (f"flat/d{s[0]}/{'ext' if s[1] else 'prim'}/{'bus' if s[2] else 'scalar'}/{sorted(s[3].items())}",
                lambda s=s: build(s))
